@@ -1,6 +1,6 @@
 (* Function table for the function-level correspondence check.  The ids are
    mirrored in harness/fnids.go. *)
-From OTR Require Import Go.Base Gen.Consts Corr.Val Bytes.Wire Bytes.Msgs Bytes.Strconv Bytes.B64 Bytes.Frag Bytes.Text Proto.Group Crypto.Sha Crypto.Aes Spec.Otr.
+From OTR Require Import Go.Base Gen.Consts Corr.Val Bytes.Wire Bytes.Msgs Bytes.Strconv Bytes.B64 Bytes.Frag Bytes.Text Proto.Group Crypto.Sha Crypto.Aes Spec.Otr Bytes.Sexp.
 Open Scope N_scope.
 
 Definition v_rest_n (o : option (bytes * N)) : val :=
@@ -102,6 +102,16 @@ Definition v_tags (r : R (option (N * N))) : val :=
   | Panic => VPanic
   end.
 
+Fixpoint v_sx (s : sx) : val :=
+  match s with
+  | SNil => VL [VN 0]
+  | SCons a b => VL [VN 1; match a with Some x => v_sx x | None => VNone end; v_sx b]
+  | SSym b => VL [VN 2; VB b]
+  | SStr b => VL [VN 3; VB b]
+  | SNum None => VL [VN 4; VNone]
+  | SNum (Some (neg, n)) => VL [VN 4; VL [vbool neg; VN n]]
+  end.
+
 Definition dispatch_text (fn : N) (a : list val) : val :=
   match fn with
   | 50 => VB (b64encode (argB a 0))
@@ -109,6 +119,7 @@ Definition dispatch_text (fn : N) (a : list val) : val :=
   | 52 => match decode (argB a 0) with Ok d => VB d | Err _ => VNone | Panic => VPanic end
   | 53 => VB (encode (argB a 0))
   | 90 => vbool (isGroupElementN (argN a 0) (argN a 1))
+  | 120 => match sexp_read (argB a 0) with Some (Some x) => v_sx x | Some None => VNone | None => VErr 998 end
   (* cryptographic primitives of the specification model *)
   | 100 => VB (sha1 (argB a 0))
   | 101 => VB (sha256 (argB a 0))
